@@ -434,6 +434,31 @@ Proof.
     + rewrite Ef in Hin. destruct Hin.
 Qed.
 
+Lemma inv_forget st t i st' :
+  Inv st -> q_now st <= t -> forallb (fun d => t <=? d) (dues st) = true ->
+  qevent_apply f D st t (Forget i) = Some st' -> Inv st'.
+Proof.
+  intros I Hnow Hdues Hap. cbn [qevent_apply] in Hap. unfold reload_forget in Hap. injection Hap as <-.
+  constructor; [cbn [q_log q_now q_last q_wait q_fifo q_dirty q_proc] .. |].
+  - intros o Ho. pose proof (iv_log st I o Ho) as H. destruct o; lia.
+  - exact (iv_pair st I).
+  - destruct (iv_wait st I) as [E|(r & E & _ & Hgr & Hh)]; [now left|right].
+    exists r. repeat split; try assumption.
+    pose proof (dues_wait st t r i0 Hdues) as H. rewrite E in H. exact (H (or_introl eq_refl)).
+  - destruct (iv_fifo st I) as [(Ef & Ed)|(Ef & Ed & Ep & Hg & Hwr & Hh)]; [left; auto|right].
+    pose proof (dues_fifo st t _ _ Hdues Ep Ef). assert (t = q_now st) as -> by lia.
+    repeat split; assumption.
+  - pose proof (iv_proc st I) as Hp. destruct (q_proc st) as [[j e]|] eqn:Ep; [|exact Logic.I].
+    destruct Hp as (-> & _ & Hr). repeat split; [|exact Hr]. eapply dues_proc; eassumption.
+  - exact (iv_runs st I).
+  - exact (iv_A st I).
+  - apply (keep_C st); cbn [q_log q_now q_fifo q_wait]; [reflexivity| |exact (iv_C st I)].
+    intros j g _ (Hng & Hpend). destruct Hpend as [(r & Hin & Hrg)|Hin].
+    + pose proof (dues_wait st t r j Hdues Hin). split; [lia|]. left. exists r. split; assumption.
+    + destruct (iv_fifo st I) as [(Ef & _)|(Ef & _ & Ep & _)]; [rewrite Ef in Hin; destruct Hin|].
+      pose proof (dues_fifo st t _ _ Hdues Ep Ef). split; [lia|]. now right.
+Qed.
+
 Lemma inv_step st e st' :
   Inv st -> (forall i, snd e = Arrive i -> i = i0) -> (forall i d, snd e <> Retry i d) ->
   qstep f D st e = Some st' -> Inv st'.
@@ -441,11 +466,12 @@ Proof.
   intros I Hi Hnr. unfold qstep.
   destruct ((q_now st <=? fst e) && forallb (fun d => fst e <=? d) (dues st)) eqn:Hb; [|discriminate].
   apply andb_true_iff in Hb as [Hn Hd]. apply Z.leb_le in Hn. destruct e as [t ev]. cbn [fst snd] in *.
-  destruct ev as [i|i|d| |i d].
+  destruct ev as [i|i|d| |i|i d].
   - rewrite (Hi i eq_refl). now apply inv_arrive.
   - now apply inv_fire.
   - now apply inv_get.
   - now apply inv_done.
+  - eapply inv_forget; eassumption.
   - exfalso. exact (Hnr i d eq_refl).
 Qed.
 
@@ -658,8 +684,9 @@ Lemma ninv_step f D st e st' : NInv st -> qstep f D st e = Some st' -> NInv st'.
 Proof.
   intros I. pose proof I as [Hd Hs]. unfold qstep.
   destruct ((q_now st <=? fst e) && forallb (fun d => fst e <=? d) (dues st)); [|discriminate].
-  destruct e as [t ev]. cbn [fst snd]. destruct ev as [i|i|d| |i d0].
-  5:{ rewrite retry_is_arrive. apply ninv_arrive. exact I. }
+  destruct e as [t ev]. cbn [fst snd]. destruct ev as [i|i|d| |i|i d0].
+  6:{ rewrite retry_is_arrive. apply ninv_arrive. exact I. }
+  5:{ cbn [qevent_apply]. intros [= <-]. constructor; [exact Hd|exact Hs]. }
   1:{ apply ninv_arrive. exact I. }
   all: cbn [qevent_apply].
   - (* Fire *)
